@@ -76,20 +76,17 @@ impl ExclusiveExtractor for MultipartBody {
                     format!("invalid content type: {}", e),
                 )
             })?;
-        // The boundary is the string after the "boundary=" part of the
-        // content-type header.
-        let boundary =
-            content_type.split("boundary=").nth(1).ok_or_else(|| {
-                HttpError::for_bad_request(
-                    None,
-                    "missing boundary in content-type header".to_string(),
-                )
-            })?;
+        // The boundary is the value of the "boundary" parameter of the
+        // content-type header (which may be quoted and may be followed by
+        // other parameters).
+        let boundary = multer::parse_boundary(content_type).map_err(|_| {
+            HttpError::for_bad_request(
+                None,
+                "missing boundary in content-type header".to_string(),
+            )
+        })?;
         Ok(MultipartBody {
-            content: multer::Multipart::new(
-                body.into_data_stream(),
-                boundary.to_string(),
-            ),
+            content: multer::Multipart::new(body.into_data_stream(), boundary),
         })
     }
 
